@@ -236,6 +236,8 @@ type result struct {
 	ptr     map[string]runtime.Object
 	panic   string
 	panicAt int
+	// refusals of the last operation that a fresh engine holding the same objects does not share
+	refusal string
 }
 
 func replay(hist []*op, debugCache bool) (r result) {
@@ -296,18 +298,34 @@ func replay(hist []*op, debugCache bool) (r result) {
 			r.pe.CheckIfAllowed(q[0], q[1], q[2], q[3])
 		case o.insert:
 			k := o.o.k8s()
+			r.refusal = ""
 			if err := r.pe.InsertObject(k); err == nil {
 				r.m[o.o.key] = o.o
 				r.ptr[o.o.key] = k
+			} else if _, present := r.m[o.o.key]; !present && i == len(hist)-1 {
+				// an object that is not there now: the engine with a history may refuse it only if a fresh engine holding the
+				// same current objects refuses it as well (a refused *update* of a policy is the uniqueness rule of C19)
+				m2 := model{}
+				for key, v := range r.m {
+					m2[key] = v
+				}
+				m2[o.o.key] = o.o
+				if _, ferr := m2.fresh(); ferr == nil {
+					r.refusal = fmt.Sprintf("InsertObject(%s) fails with %q although the object is not present and a fresh engine accepts it next to the current objects", o.name, err.Error())
+				}
 			}
 		default:
 			k := o.o.k8s()
 			if p, ok := r.ptr[o.o.key]; ok && o.byPtr {
 				k = p
 			}
+			r.refusal = ""
 			if err := r.pe.DeleteObject(k); err == nil {
 				delete(r.m, o.o.key)
 				delete(r.ptr, o.o.key)
+			} else if i == len(hist)-1 {
+				// DeleteObject of a well-formed object has no reason to fail, present or not ("a no-op, not a crash")
+				r.refusal = fmt.Sprintf("DeleteObject(%s) fails with %q", o.name, err.Error())
 			}
 		}
 	}
@@ -510,6 +528,10 @@ func Run(r *fw.Run) {
 			r.ReplayReport([]fw.Failure{{Class: "panic in " + opKind(hist[res.panicAt].name), Detail: res.panic}})
 			return
 		}
+		if res.refusal != "" {
+			r.ReplayReport([]fw.Failure{{Class: "the engine refuses an operation because of its history: " + opKind(hist[len(hist)-1].name), Detail: "history: " + strings.Join(names(hist), " ; ") + "\n" + res.refusal}})
+			return
+		}
 		fails, _ := invariant(res, hist, len(sd[rd.Seed]))
 		r.ReplayReport(fails)
 		return
@@ -537,17 +559,36 @@ func Run(r *fw.Run) {
 		st := seedStat{Seed: si}
 		seen := map[[20]byte]bool{}
 		outcomes := map[string]bool{}
-		frontier := [][]*op{seed}
 		complete := true
 		var seq int64
 		seedDepth := depth
 		if r.Quick() && si >= 2 {
 			seedDepth = depth - 1 // quick tier: the pre-populated seeds beyond the first are searched one level less deep
 		}
-		for d := 0; d <= seedDepth && len(frontier) > 0; d++ {
+		// level d holds the candidate histories parents x alphabet (level 0: the seed itself). They are never materialised
+		// as one slice (level 8 of the thorough tier has some 3e8 of them): a level is evaluated chunk by chunk, in
+		// enumeration order, so the search stays deterministic and its memory is bounded by the states kept.
+		parents := [][]*op{nil}
+		const chunkSize = 1 << 21
+		frontierLeft := 1
+		for d := 0; d <= seedDepth && len(parents) > 0; d++ {
 			if r.Expired() {
 				complete = false
 				break
+			}
+			nCand := len(parents) * len(alpha)
+			if d == 0 {
+				nCand = 1
+			}
+			candidate := func(i int) []*op {
+				if d == 0 {
+					return seed
+				}
+				ph := parents[i/len(alpha)]
+				h := make([]*op, len(ph)+1)
+				copy(h, ph)
+				h[len(h)-1] = &alpha[i%len(alpha)]
+				return h
 			}
 			type out struct {
 				hist  []*op
@@ -556,103 +597,124 @@ func Run(r *fw.Run) {
 				oc    string
 				isNew bool
 			}
-			// level d: frontier holds candidate histories (already expanded by one op); evaluate each
-			outs := make([]out, len(frontier))
-			var wg sync.WaitGroup
-			idx := make(chan int, 1024)
-			for g := 0; g < r.Workers; g++ {
-				wg.Add(1)
-				go func() {
-					defer wg.Done()
-					for i := range idx {
-						hist := frontier[i]
-						res := replay(hist, si == 4)
-						o := out{hist: hist}
-						if res.panic != "" {
-							o.fails = []fw.Failure{{Class: "panic in " + opKind(hist[res.panicAt].name), Detail: fmt.Sprintf("history: %s\n%s", strings.Join(names(hist), " ; "), res.panic)}}
+			var nextParents [][]*op
+			levelFresh := 0
+			var midFresh []*op
+			for lo := 0; lo < nCand; lo += chunkSize {
+				if lo > 0 && r.Expired() {
+					complete = false
+					break
+				}
+				hi := lo + chunkSize
+				if hi > nCand {
+					hi = nCand
+				}
+				outs := make([]out, hi-lo)
+				var wg sync.WaitGroup
+				idx := make(chan int, 1024)
+				for g := 0; g < r.Workers; g++ {
+					wg.Add(1)
+					go func() {
+						defer wg.Done()
+						for i := range idx {
+							hist := candidate(lo + i)
+							res := replay(hist, si == 4)
+							o := out{hist: hist}
+							if res.panic != "" {
+								o.fails = []fw.Failure{{Class: "panic in " + opKind(hist[res.panicAt].name), Detail: fmt.Sprintf("history: %s\n%s", strings.Join(names(hist), " ; "), res.panic)}}
+								outs[i] = o
+								continue
+							}
+							if res.refusal != "" { // reported for the transition itself: the state it leads to is the one before
+								o.fails = []fw.Failure{{Class: "the engine refuses an operation because of its history: " + opKind(hist[len(hist)-1].name), Detail: "history: " + strings.Join(names(hist), " ; ") + "\n" + res.refusal}}
+								outs[i] = o
+								continue
+							}
+							// a state is the pair (engine state, current objects of the model): an operation that silently fails to
+							// change the engine leaves the dump unchanged but not the model, and must not be merged with the state before
+							o.key = sha1.Sum([]byte(res.pe.VerifDump() + "\x00MODEL" + strings.Join(res.m.describe(), ";")))
 							outs[i] = o
-							continue
 						}
-						// a state is the pair (engine state, current objects of the model): an operation that silently fails to
-						// change the engine leaves the dump unchanged but not the model, and must not be merged with the state before
-						o.key = sha1.Sum([]byte(res.pe.VerifDump() + "\x00MODEL" + strings.Join(res.m.describe(), ";")))
-						outs[i] = o
+					}()
+				}
+				for i := range outs {
+					idx <- i
+				}
+				close(idx)
+				wg.Wait()
+				st.Transitions += int64(len(outs))
+				// de-duplicate sequentially (deterministic: first history in enumeration order wins)
+				var fresh []int
+				for i := range outs {
+					if len(outs[i].fails) > 0 {
+						continue
 					}
-				}()
-			}
-			for i := range frontier {
-				idx <- i
-			}
-			close(idx)
-			wg.Wait()
-			st.Transitions += int64(len(frontier))
-			// de-duplicate sequentially (deterministic: first history in enumeration order wins)
-			var fresh []int
-			for i := range outs {
-				if len(outs[i].fails) > 0 {
-					continue
-				}
-				if !seen[outs[i].key] {
-					seen[outs[i].key] = true
-					outs[i].isNew = true
-					fresh = append(fresh, i)
-				}
-			}
-			// invariant on every new state, in parallel (the replayed engine is disposable)
-			idx = make(chan int, 1024)
-			for g := 0; g < r.Workers; g++ {
-				wg.Add(1)
-				go func() {
-					defer wg.Done()
-					for i := range idx {
-						res := replay(outs[i].hist, si == 4)
-						outs[i].fails, outs[i].oc = invariant(res, outs[i].hist, len(seed))
+					if !seen[outs[i].key] {
+						seen[outs[i].key] = true
+						outs[i].isNew = true
+						fresh = append(fresh, i)
 					}
-				}()
-			}
-			for _, i := range fresh {
-				idx <- i
-			}
-			close(idx)
-			wg.Wait()
-			for i := range outs {
-				if len(outs[i].fails) > 0 {
-					x := r.NewRec()
-					for _, f := range outs[i].fails {
-						x.Fail(f.Class, f.Known, f.Detail)
-					}
-					rd, _ := json.Marshal(replayData{Seed: si, Ops: names(outs[i].hist[len(seed):])})
-					x.Describe(func() any { return json.RawMessage(rd) })
-					r.Direct(fmt.Sprintf("bfs-seed%d", si), seq, x)
 				}
-				seq++
-				if outs[i].isNew {
-					outcomes[outs[i].oc] = true
+				// invariant on every new state, in parallel (the replayed engine is disposable)
+				idx = make(chan int, 1024)
+				for g := 0; g < r.Workers; g++ {
+					wg.Add(1)
+					go func() {
+						defer wg.Done()
+						for i := range idx {
+							res := replay(outs[i].hist, si == 4)
+							outs[i].fails, outs[i].oc = invariant(res, outs[i].hist, len(seed))
+						}
+					}()
 				}
-			}
-			st.States += len(fresh)
-			st.LevelSizes = append(st.LevelSizes, len(fresh))
-			st.Depth = d
-			if len(fresh) > 0 && len(sampleHist) < 3 && d >= 3 {
-				sampleHist = append(sampleHist, strings.Join(names(outs[fresh[len(fresh)/2]].hist), " ; "))
-			}
-			var next [][]*op
-			if d < seedDepth {
 				for _, i := range fresh {
-					for k := range alpha {
-						h := make([]*op, len(outs[i].hist)+1)
-						copy(h, outs[i].hist)
-						h[len(h)-1] = &alpha[k]
-						next = append(next, h)
+					idx <- i
+				}
+				close(idx)
+				wg.Wait()
+				for i := range outs {
+					if len(outs[i].fails) > 0 {
+						x := r.NewRec()
+						for _, f := range outs[i].fails {
+							x.Fail(f.Class, f.Known, f.Detail)
+						}
+						rd, _ := json.Marshal(replayData{Seed: si, Ops: names(outs[i].hist[len(seed):])})
+						x.Describe(func() any { return json.RawMessage(rd) })
+						r.Direct(fmt.Sprintf("bfs-seed%d", si), seq, x)
+					}
+					seq++
+					if outs[i].isNew {
+						outcomes[outs[i].oc] = true
+					}
+				}
+				levelFresh += len(fresh)
+				if len(fresh) > 0 && midFresh == nil {
+					midFresh = outs[fresh[len(fresh)/2]].hist
+				}
+				if d < seedDepth {
+					for _, i := range fresh {
+						nextParents = append(nextParents, outs[i].hist)
 					}
 				}
 			}
-			if len(fresh) == 0 {
+			st.States += levelFresh
+			if !complete {
+				// the level was cut by the deadline: its states count, the depth completed stays the previous one
+				st.LevelSizes = append(st.LevelSizes, -levelFresh)
+				break
+			}
+			st.LevelSizes = append(st.LevelSizes, levelFresh)
+			st.Depth = d
+			if midFresh != nil && len(sampleHist) < 3 && d >= 3 {
+				sampleHist = append(sampleHist, strings.Join(names(midFresh), " ; "))
+			}
+			if levelFresh == 0 {
 				st.Fixpoint = true
 			}
-			frontier = next
+			parents = nextParents
+			frontierLeft = len(parents)
 		}
-		if len(frontier) == 0 && complete && st.Depth < seedDepth {
+		if frontierLeft == 0 && complete && st.Depth < seedDepth {
 			st.Fixpoint = true
 		}
 		x := r.NewRec()
